@@ -238,9 +238,11 @@ def backbone_peptides(bb: Backbone, edits, lim: dg.Limits, flags: Flags, must: b
             if None not in ps and ps[2] - ps[0] == 2 and hap[ps[0]:ps[0] + 3] == 'TGA':
                 exact.append(ps[0])
         if exact:
-            sec_sets.append(sorted(set(sec_ok + exact)))
-            for q in exact:       # each ambiguous codon on its own
-                sec_sets.append(sorted(set(sec_ok + [q])))
+            # every subset of the ambiguous codons may be read as U (the others as stop)
+            ex = sorted(set(exact))[:6]
+            for k in range(1, len(ex) + 1):
+                for comb in itertools.combinations(ex, k):
+                    sec_sets.append(sorted(set(sec_ok + list(comb))))
         if extra:
             sec_sets.append(sorted(set(sec_ok + extra)))
     L = len(hap)
